@@ -105,7 +105,7 @@ func run(c Case) (res ev.Result) {
 			if k > 14 {
 				nt++
 			}
-			w := &faultio.Writer{Budget: k, Short: short, Full: wm == "write-full-count", Transient: wm == "write-transient"}
+			w := &faultio.Writer{Budget: k, Short: short, Full: wm == "write-full-count", Transient: wm == "write-transient", Err: faultio.ErrFor(k)}
 			var size int64
 			var werr error
 			if p := ev.Try(func() { size, werr = gen.BuildLib(c.API).WriteTo(w) }); p != "" {
@@ -163,7 +163,7 @@ func run(c Case) (res ev.Result) {
 			if k > 14 {
 				nt++
 			}
-			r := &faultio.FailingReader{Data: file, FailAt: k, Together: together}
+			r := &faultio.FailingReader{Data: file, FailAt: k, Together: together, Err: faultio.ErrFor(k + 2)}
 			var s *smf.SMF
 			var rerr error
 			if p := ev.TryTimeout(ev.Watchdog, func() { s, rerr = smf.ReadFrom(r) }); p != "" {
@@ -269,7 +269,7 @@ func offsets(file []byte) []int {
 }
 
 var files = ev.NewCheck("C10", "files",
-	"rapid: files from the C01 API-history generator (1..5 tracks, payloads <= 300 bytes, in one case of twelve up to 70000 bytes with a forced payload of 4097 / 65536 / 65537 / 70000 bytes in the last track; files > 1500 bytes use every offset near the start, every chunk header, the buffer thresholds and the end plus a stride instead of every offset); per file a write fault at EVERY byte offset (short write (k,err), refused write (0,err), deferred failure (len(p),err) and a transient failure (one short write with an error, later writes accepted again)) and a sticky non-EOF read fault at EVERY byte offset (error alone after k bytes, and together with the last bytes); once per file SMF.WriteFile through a symbolic link to /dev/full (every write fails; skipped where that device does not exist); oracle: fault before the end => non-nil error (read: and no value), no fault => nil error, size == bytes accepted == file length; the per-fault-point counts are in part 'fault-points'",
+	"rapid: files from the C01 API-history generator (1..5 tracks, payloads <= 300 bytes, in one case of twelve up to 70000 bytes with a forced payload of 4097 / 65536 / 65537 / 70000 bytes in the last track; files > 1500 bytes use every offset near the start, every chunk header, the buffer thresholds and the end plus a stride instead of every offset); per file a write fault at EVERY byte offset (short write (k,err), refused write (0,err), deferred failure (len(p),err) and a transient failure (one short write with an error, later writes accepted again)) and a sticky non-EOF read fault at EVERY byte offset (error alone after k bytes, and together with the last bytes); once per file SMF.WriteFile through a symbolic link to /dev/full (every write fails; skipped where that device does not exist); the error value of a fault rotates with the offset over well-known values (injected, io.ErrShortWrite, io.ErrUnexpectedEOF, io.ErrClosedPipe, io.ErrNoProgress, deadline exceeded, closed, ENOSPC, EPIPE, EIO, io.ErrShortBuffer; never io.EOF); oracle: fault before the end => non-nil error (read: and no value), no fault => nil error, size == bytes accepted == file length; the per-fault-point counts are in part 'fault-points'",
 	func(t *rapid.T) Case {
 		mp := 300
 		if rapid.IntRange(0, 11).Draw(t, "bigPayloads?") == 0 {
